@@ -83,7 +83,11 @@ impl<F: Float> Transformer<Array2<F>, Array2<F>> for NormScaler {
         Zip::from(x.rows_mut())
             .and(&norms)
             .for_each(|mut row, &norm| {
-                row.mapv_inplace(|el| el / norm);
+                // a row whose norm is zero (all-zero sample) has no direction to
+                // normalize: leave it unchanged instead of dividing by zero
+                if norm > F::zero() {
+                    row.mapv_inplace(|el| el / norm);
+                }
             });
         x
     }
